@@ -81,6 +81,25 @@ pub fn run(args: &Args) {
             instants.push((s, n));
         }
     }
+    // instants at which a count of milli-, micro- or nanoseconds passes a multiple of 2^64 or 2^63 (where a conversion
+    // through a narrower integer would wrap back into the valid range), and multiples of 2^61 and 2^62 seconds
+    for unit in [1_000i128, 1_000_000, 1_000_000_000] {
+        for m in 1..=4i128 {
+            for base in [(m << 64) / unit, (m << 63) / unit, (m << 32) * 1000 / unit] {
+                for d in [-1i128, 0, 1, 2, 7] {
+                    instants.push((base + d, 0));
+                    instants.push((base + d, 999_999_999));
+                }
+            }
+        }
+    }
+    for k in 1..=3i128 {
+        for base in [k << 61, k << 62, k << 33, k << 48] {
+            for d in [0i128, 1, 5, (1 << 31), (1 << 32) - 1] {
+                instants.push((base + d, 0));
+            }
+        }
+    }
     for _ in 0..nrand {
         let s: i128 = match rng.below(6) {
             0 => rng.range(-100_000, 100_000) as i128,
